@@ -86,6 +86,9 @@ def _work(args: tuple) -> dict:
                         except Exception:      # noqa: BLE001
                             pass
         for case, root in cases:
+            import json as _json
+            stats.setdefault("subsetdep", []).extend(
+                _json.dumps(f, sort_keys=True) for f in _subset_dependencies(H, root, case))
             rec = H.export_analyses(root, H.Interner(), case)
             stats["graphs"] += 1
             for kd in rec["kind"]:
@@ -95,6 +98,32 @@ def _work(args: tuple) -> dict:
                     stats["ekinds"][kd] = stats["ekinds"].get(kd, 0) + 1
             records.append(rec)
     return {"records": records, "stats": stats}
+
+
+def _subset_dependencies(H: Any, root: Any, case: str) -> list[dict]:
+    """SubsetDependencyMapper(universe)(node) is a subset of the universe -- for every node
+    of the graph as the root of the query (also leaves: a size parameter), the universe
+    being every second array of the graph -- and equals the reflective dependencies that
+    lie in the universe."""
+    import pytato as pt
+    from pytato.transform import SubsetDependencyMapper
+    out: list[dict] = []
+    try:
+        objs = [o for o in H.reflect(root).objs if isinstance(o, pt.Array)]
+    except Exception:      # noqa: BLE001
+        return out
+    if any(type(o).__name__ in ("NamedCallResult",) for o in objs):
+        return out            # (function bodies: other name spaces, not dependencies)
+    universe = frozenset(objs[::2])
+    for o in objs:
+        try:
+            got = SubsetDependencyMapper(universe)(o)
+        except Exception:      # noqa: BLE001
+            continue              # (unsupported node kinds are C13's business)
+        extra = [type(x).__name__ for x in got if x not in universe]
+        if extra:
+            out.append({"case": case, "root": type(o).__name__, "extra": sorted(set(extra))})
+    return out
 
 
 def root_of(view: str, clause: str) -> str:
@@ -223,6 +252,14 @@ def main(tier: str, only: dict | None = None) -> int:
                 if st_:
                     stored_kinds[kd] = stored_kinds.get(kd, 0) + 1
         stats["stored_tagged_node_kinds"] = stored_kinds
+        import json as _json
+        for f in map(_json.loads, stats.pop("subsetdep", [])):
+            run.violation(f"subsetdep|{f['root']}|{','.join(f['extra'])}",
+                          f"{f['case']}: SubsetDependencyMapper(universe) asked for the "
+                          f"dependencies of a {f['root']} returns {f['extra']} that are not in "
+                          f"the universe", record={"case": f["case"]},
+                          sig={"view": "SubsetDependencyMapper", "clause": "not_a_subset",
+                               "root": f["root"]})
         val = judge(run, records)
         mc["states"] += gen["states"]
         mc["transitions"] += gen["transitions"]
